@@ -110,6 +110,7 @@ func prepareCorpus(s *build.Scratch, specs []string) ([]CorpusPkg, map[string]st
 	_ = os.MkdirAll(work, 0o755)
 	_ = os.WriteFile(filepath.Join(work, "corpus.yml"), []byte(corpusConfig), 0o644)
 	_ = os.WriteFile(filepath.Join(work, "matrix.yml"), []byte(matrixConfig), 0o644)
+	_ = os.WriteFile(filepath.Join(work, "matrix_b.yml"), []byte(matrixConfigB), 0o644)
 	var mu sync.Mutex
 	var wg sync.WaitGroup
 	sem := make(chan struct{}, 8)
@@ -125,6 +126,9 @@ func prepareCorpus(s *build.Scratch, specs []string) ([]CorpusPkg, map[string]st
 			cfg := "corpus.yml"
 			if strings.HasPrefix(filepath.Base(rel), "mx_") && filepath.IsAbs(rel) {
 				cfg = "matrix.yml"
+				if strings.HasSuffix(strings.TrimSuffix(filepath.Base(rel), filepath.Ext(rel)), "_b") {
+					cfg = "matrix_b.yml"
+				}
 			}
 			r := s.Run(work, 0, nil, filepath.Join(s.Bin, "ogen"), "--config", cfg, "--target", target, "--package", "api", "--clean", specPath(s, rel))
 			mu.Lock()
